@@ -77,19 +77,25 @@ def FIRST(g: A[int, 1], j: int) -> bool:
 def allelic_dosage(genotype_alleles: A[iN, 1]) -> A[iN, 1]:
     requires(len(genotype_alleles) <= 127)
     # dosage[j] = copies of allele g[j] if j is its first occurrence, else 0
-    ensures(len(result) == len(genotype_alleles))
+    ensures(len(result) == len(genotype_alleles), ISUM(result, 0, len(genotype_alleles)) == len(genotype_alleles))
+    ensures(forall(0, len(genotype_alleles), lambda j: 0 <= result[j] and result[j] <= len(genotype_alleles)))
     ensures(forall(0, len(genotype_alleles), lambda j: result[j] == ite(FIRST(genotype_alleles, j), CNT(genotype_alleles, genotype_alleles[j], len(genotype_alleles)), 0)))
     with entry():
         with forall_intro(q, 0, len(genotype_alleles), CNT(genotype_alleles, genotype_alleles[q], 0) == 0):
             unfold(CNT(genotype_alleles, genotype_alleles[q], 0))
+    with after_stmt("dosage = np.zeros(ploidy, dtype=genotype_alleles.dtype)"):
+        lemma_isum_le(dosage, 0, ploidy, 0)
+        lemma_isum_nonneg(dosage, 0, ploidy)
     with after_stmt("j = 0"):
         unfold(CNT(genotype_alleles, a, 0))
     with loop(0):
-        invariant(0 <= i, i <= ploidy, ploidy == len(genotype_alleles), len(dosage) == ploidy)
+        invariant(0 <= i, i <= ploidy, ploidy == len(genotype_alleles), len(dosage) == ploidy, ISUM(dosage, 0, ploidy) == i)
+        invariant(forall(0, ploidy, lambda q: 0 <= dosage[q] and dosage[q] <= i))
         invariant(forall(0, ploidy, lambda q: dosage[q] == ite(FIRST(genotype_alleles, q), CNT(genotype_alleles, genotype_alleles[q], i), 0)))
         with head():
             lemma_cnt_range(genotype_alleles, genotype_alleles[i], i)
         with tail():
+            lemma_isum_upd(at("loop1", dosage), dosage, 0, ploidy, j)
             with forall_intro(q, 0, ploidy, dosage[q] == ite(FIRST(genotype_alleles, q), CNT(genotype_alleles, genotype_alleles[q], i + 1), 0)):
                 unfold(CNT(genotype_alleles, genotype_alleles[q], i + 1))
                 if q < j:
